@@ -160,7 +160,10 @@ def judgeCase (_k : Nat) (lines : List String) : Verdict := Id.run do
       if ms.isSome == failed then
         div := div ++ [s!"{rc.label}:{conf}:model-{if ms.isSome then "succeeds" else "fails"},status={rc.obs.status}"]
       -- judge
-      let who := if !authOn then "auth-off" else if anonymous then "anonymous" else "auth-on"
+      let presigned := !(queryGet r amzSignatureKey).isEmpty && (headerGet r (b! "Authorization")).isEmpty
+      let who := if !authOn then "auth-off" else if anonymous then "anonymous"
+        else if presigned then "presigned" else "auth-on"
+      stats := addStats stats [("carrier_" ++ (if anonymous then "anonymous" else if presigned then "presigned" else "header"), 1)]
       if rc.label == "base" then
         fp := mixHash fp (hash (conf, rc.mode, anonymous, r.body.length, rc.payload, headerGet r (b! "x-amz-trailer")))
         nontrivial := true
